@@ -35,7 +35,7 @@ template <typename Parameters>
 typename fcppt::random::distribution::basic<Parameters>::param_type
 fcppt::random::distribution::basic<Parameters>::param() const
 {
-  return Parameters::convert_to(distribution_.param());
+  return Parameters::convert_to(distribution_);
 }
 
 template <typename Parameters>
